@@ -277,6 +277,17 @@ func Check(c *Case, h *Hist) []Finding {
 				add("C09", "with one worker, job %d started (seq %d) after the context was cancelled inside another job (seq %d)", j, ss, cancelSeq)
 			}
 		}
+		// cancellation injected while a worker held a job it had not examined
+		// yet: that worker - and only it is judged - saw cancel() return before
+		// it looked at the job, so nothing it handles from then on may start
+		// (same goroutine, later in program order: no race involved)
+		if gg, gs := h.CancelGotGid.Load(), h.CancelGotSeq.Load(); gs != 0 {
+			for j := 0; j < J; j++ {
+				if started(j) && rootDerived(j) && h.Gid[j].Load() == gg && h.StartSeq[j].Load() > gs {
+					add("C09", "job %d was started (seq %d) by a worker that had received it and then seen the context cancelled (cancel() returned at seq %d on that worker's goroutine) before it examined the job", j, h.StartSeq[j].Load(), gs)
+				}
+			}
+		}
 		if waitCtxSurelyDone && h.WaitErr == nil {
 			add("C09", "Wait returned nil although its context was cancelled before it could return")
 		}
